@@ -62,6 +62,14 @@ def cases():
     out.append((("Or", ("exists", qa, ("And", a, b)), ("forall", qa, ("Or", a, b))), [(b, ("Not", c)), (a, c)]))
     out.append((("exists", qa, ("forall", qa, ("Or", a, b))), [(a, c), (b, c)]))               # shadowing
     out.append((("And", ("exists", qa, ("Or", a, b)), ("Or", a, b)), [(("Or", a, b), c)]))      # same term bound and free
+    # the body of a quantifier also occurs outside it (one node, reached free and bound), either side first; the key is the bound variable
+    ob = ("Or", a, b)
+    out.append((("And", ("forall", qa, ob), ob), [(a, ("Not", b))]))
+    out.append((("And", ob, ("forall", qa, ob)), [(a, ("Not", b))]))
+    out.append((("Or", ("exists", qa, ob), ("And", ob, c)), [(a, c), (b, d)]))
+    out.append((("And", ("Or", ob, c), ("exists", qa, ("forall", [("b", BOOL)], ob)), ob), [(a, d), (b, c)]))
+    out.append((("And", ("exists", qx, ("LT", ("Plus", x, y), z)), ("LT", ("Plus", x, y), z)), [(x, three), (y, x)]))
+    out.append((("Iff", ("LT", ("Plus", x, y), z), ("forall", qx, ("LT", ("Plus", x, y), z))), [(x, z)]))
     # an entry that maps a term to itself is an entry: under the most-general order it shields the keys inside it
     out.append((("And", a, b), [(("And", a, b), ("And", a, b)), (a, c)]))
     out.append((("Or", ("Not", a), ("And", a, b)), [(("Not", a), ("Not", a)), (a, c)]))
